@@ -280,6 +280,7 @@ func runC09(c *Ctx) {
 	runC09Len(c, tn)
 	runC09Rebuild(c, named)
 	runC09Config(c, named)
+	runC09Live(c, named)
 }
 
 // traceBool: the value of a boolean abstract value on a finished trace.
@@ -745,4 +746,178 @@ func runC09Config(c *Ctx, named *types.Named) {
 		}
 		c.Check(len(bad) == 0, "C09-CONFIG", fnName(del), "identity", del.Pos(), "key found by element identity", uniqJoin(bad, 2))
 	}
+}
+
+// runC09Live: the map and the list are always updated on the state that stays live.
+//   live-map   every mutation of the key->element map (insert, delete) is applied to the map
+//              that is the field's content at that moment: the operand is a load of the field
+//              with no assignment of the field between that load and the mutation (an alias taken
+//              before the periodic rebuild points at the abandoned map)
+//   own-value  Load returns the Value of the very element it found under the key
+func runC09Live(c *Ctx, named *types.Named) {
+	p := c.P
+	c.Rule("C09-LIVE", "map mutations act on the live map (no field assignment between loading the map and mutating it); Load returns the value of the element it looked up", 2)
+	st := named.Underlying().(*types.Struct)
+	mapField := -1
+	for i := 0; i < st.NumFields(); i++ {
+		if mt, ok := st.Field(i).Type().Underlying().(*types.Map); ok && strings.Contains(mt.Elem().String(), "container/list.Element") {
+			mapField = i
+		}
+	}
+	if mapField < 0 {
+		c.Unk("C09-LIVE", named.Obj().Name(), "live-map", token.NoPos, "element map field not found")
+		return
+	}
+	isMapFieldAddr := func(v ssa.Value) bool {
+		fa, ok := v.(*ssa.FieldAddr)
+		return ok && namedOf(fa.X.Type()) == named && fa.Field == mapField
+	}
+	var bad []string
+	n := 0
+	for _, fn := range p.Funcs {
+		if recvNamed(fn) != named {
+			continue
+		}
+		var stores []*ssa.Store
+		for _, b := range fn.Blocks {
+			for _, ins := range b.Instrs {
+				if stt, ok := ins.(*ssa.Store); ok && isMapFieldAddr(stt.Addr) {
+					stores = append(stores, stt)
+				}
+			}
+		}
+		for _, b := range fn.Blocks {
+			for idx, ins := range b.Instrs {
+				var m ssa.Value
+				switch x := ins.(type) {
+				case *ssa.MapUpdate:
+					m = x.Map
+				case *ssa.Call:
+					if calleeName(&x.Call) == "builtin.delete" && len(x.Call.Args) > 0 {
+						m = x.Call.Args[0]
+					}
+				}
+				if m == nil {
+					continue
+				}
+				mt, ok := m.Type().Underlying().(*types.Map)
+				if !ok || !strings.Contains(mt.Elem().String(), "container/list.Element") {
+					continue
+				}
+				n++
+				c.Sites++
+				if mk, isMake := m.(*ssa.MakeMap); isMake {
+					// filling a fresh map is fine when that very map is (or will be) stored into the field
+					okFresh := false
+					for _, stt := range stores {
+						if stt.Val == mk {
+							okFresh = true
+						}
+					}
+					if !okFresh {
+						bad = append(bad, fnName(fn)+" mutates a map that is never installed as the cache's map at "+p.Pos(instrPos(ins)))
+					}
+					continue
+				}
+				ld, isLoad := m.(*ssa.UnOp)
+				if !isLoad || ld.Op != token.MUL || !isMapFieldAddr(ld.X) {
+					bad = append(bad, fnName(fn)+" mutates a map that is not read from the cache's field at "+p.Pos(instrPos(ins)))
+					continue
+				}
+				// a store to the field reachable after the load and before this mutation?
+				for _, stt := range stores {
+					afterLoad := false
+					for _, later := range instrsReachableAfter(ld.Block(), indexIn(ld)) {
+						if later == ssa.Instruction(stt) {
+							afterLoad = true
+						}
+					}
+					if !afterLoad {
+						continue
+					}
+					for _, later := range instrsReachableAfter(stt.Block(), indexIn(stt)) {
+						if later == ins {
+							// the mutation can run after the field was reassigned, on a map loaded before
+							if !(stt.Block() == b && indexIn(stt) > idx) || len(naturalLoops(fn)) > 0 {
+								if !ld.Block().Dominates(stt.Block()) && ld.Block() != stt.Block() {
+									continue
+								}
+								// loaded before the store, used after it
+								if ld.Block() == b && indexIn(ld) > indexIn(stt) && stt.Block() == b {
+									continue
+								}
+								if loadFollowsStore(ld, stt) {
+									continue
+								}
+								bad = append(bad, fmt.Sprintf("%s mutates, at %s, a map loaded from the field before the field was reassigned (%s): the change is applied to the abandoned map, the live one keeps the stale entry", fnName(fn), p.Pos(instrPos(ins)), p.Pos(stt.Pos())))
+							}
+						}
+					}
+				}
+			}
+		}
+	}
+	c.Check(len(bad) == 0 && n > 0, "C09-LIVE", named.Obj().Name(), "live-map", token.NoPos, fmt.Sprintf("%d map mutations, each on the live map", n), uniqJoin(bad, 2))
+	// ---- Load returns the looked-up element's value
+	if ld := p.Method("valid", named.Obj().Name(), "Load"); ld != nil {
+		c.Sites++
+		var bad2 []string
+		nv := 0
+		seen := map[ssa.Value]bool{}
+		var trace func(v ssa.Value, pos token.Pos, d int)
+		trace = func(v ssa.Value, pos token.Pos, d int) {
+			if v == nil || seen[v] || d > 8 {
+				return
+			}
+			seen[v] = true
+			if isNilConst(v) {
+				return
+			}
+			if cst, ok := v.(*ssa.Const); ok && cst.Value == nil {
+				return
+			}
+			switch x := v.(type) {
+			case *ssa.Phi:
+				for _, e := range x.Edges {
+					trace(e, pos, d+1)
+				}
+				return
+			case *ssa.UnOp:
+				if al, ok := x.X.(*ssa.Alloc); ok {
+					// a (named result / local) cell: everything stored into it
+					for _, r := range refs(al) {
+						if st, ok := r.(*ssa.Store); ok && st.Addr == al {
+							trace(st.Val, st.Pos(), d+1)
+						}
+					}
+					return
+				}
+				if fa, ok := x.X.(*ssa.FieldAddr); ok && fieldAddrName(fa) == "Value" {
+					if ex, ok := fa.X.(*ssa.Extract); ok {
+						if lk, ok := ex.Tuple.(*ssa.Lookup); ok && len(ld.Params) >= 2 && lk.Index == ld.Params[1] {
+							nv++
+							return
+						}
+					}
+				}
+			}
+			nv++
+			bad2 = append(bad2, "Load returns something other than the Value of the element found under the key at "+p.Pos(pos))
+		}
+		for _, b := range ld.Blocks {
+			if ret, ok := b.Instrs[len(b.Instrs)-1].(*ssa.Return); ok && b != ld.Recover && len(ret.Results) >= 1 {
+				trace(ret.Results[0], ret.Pos(), 0)
+			}
+		}
+		c.Check(len(bad2) == 0 && nv > 0, "C09-LIVE", fnName(ld), "own-value", ld.Pos(), fmt.Sprintf("%d returned value(s), each the found element's Value", nv), uniqJoin(append(bad2, fmt.Sprintf("%d values", nv)), 2))
+	}
+}
+
+// loadFollowsStore: the load executes after the store on every path (same block later, or the
+// store's block strictly dominates the load's).
+func loadFollowsStore(ld *ssa.UnOp, st *ssa.Store) bool {
+	if ld.Block() == st.Block() {
+		return indexIn(ld) > indexIn(st)
+	}
+	return st.Block().Dominates(ld.Block())
 }
